@@ -23,10 +23,10 @@ From Coq Require Import List Arith Bool PeanoNat NArith.
 Import ListNotations.
 Require Import UV.Gen.Consts.
 
-Definition tid := nat.
-Definition bufid := (tid * nat)%type.       (* (thread, index in its ring) = shm object name *)
-Definition byte := N.
-Definition rec := list byte.                (* one whole encoded record *)
+Notation tid := nat (only parsing).
+Notation bufid := (nat * nat)%type (only parsing).   (* (thread, index in its ring) = shm object name *)
+Notation byte := N (only parsing).
+Notation rec := (list N) (only parsing).             (* one whole encoded record *)
 
 Definition bid_eqb (a b : bufid) : bool := Nat.eqb (fst a) (fst b) && Nat.eqb (snd a) (snd b).
 Definition upd {A} (f : bufid -> A) (b : bufid) (v : A) : bufid -> A :=
@@ -225,7 +225,9 @@ Definition p_emit (c : cfg) (s : st) (t : tid) (r : rec) (ok : bool) : option st
   if p_live s t then
     match curr s t with
     | Some i => if size s (t, i) + length r <=? maxsize c then Some (append_rec s t i r)
-                else Some (switch (set_chan s (chan s ++ [MEnd (t, i)])) t r ok)
+                else (* finish_shmem_buffer(curr); get_new_shmem_buffer overwrites curr in every case *)
+                  let s0 := set_chan s (chan s ++ [MEnd (t, i)]) in
+                  Some (switch (set_curr s0 (updt (curr s0) t None)) t r ok)
     | None => Some (switch s t r ok)
     end
   else None.
